@@ -1108,12 +1108,19 @@ fn shrink(
     };
     // which deterministic rendering reproduces it?
     let modes = [PrintMode::Plain, PrintMode::Boosted, PrintMode::Parens, PrintMode::Quoted, PrintMode::Spaced];
+    // a boost on every clause at once can hide what a boost on one clause does: as a last resort
+    // the clauses are boosted one at a time
+    let boost_one = |n: &Node| (0..BOOST_ONE_MAX).find_map(|k| fails_in(n, PrintMode::BoostOne(k)).map(|r| (PrintMode::BoostOne(k), r)));
     let Some((mode, (mut cur_text, mut cur_detail))) =
-        modes.iter().find_map(|m| fails_in(node, *m).map(|r| (*m, r)))
+        modes.iter().find_map(|m| fails_in(node, *m).map(|r| (*m, r))).or_else(|| boost_one(node))
     else {
         return (node.clone(), text.to_string(), detail, None);
     };
-    let fails = |n: &Node| fails_in(n, mode);
+    let fails = |n: &Node| match mode {
+        // the position of the boosted clause changes as the query shrinks
+        PrintMode::BoostOne(_) => boost_one(n).map(|(_, r)| r),
+        m => fails_in(n, m),
+    };
     let mut cur = node.clone();
     let mut budget = 800;
     'outer: loop {
